@@ -30,8 +30,11 @@ ASSUMPTIONS = ["feature values are strings without NUL and without trailing whit
 ALPHABET = ["a", "b", "a,b", "b,c", "c", ",", "", "\\", "a\\", "\\b", "\\,", "\\\\", ",\\", "a b", " x", "1", "1.0", "01", "x,", ",x", "a\\,b"]
 COLLIDERS2 = [[("a,b", "c"), ("a", "b,c")], [("a\\", "b"), ("a", "\\b")], [(",", ""), ("", ",")], [("a\\,b", "c"), ("a\\", "b,c")],
               [("a,", "b"), ("a", ",b")], [("\\", ","), ("\\,", "")], [("x\\\\", "y"), ("x\\", "\\y")], [("1", "1.0"), ("1.0", "1")]]
+# tuples whose cells all have the length of the longest cell and differ only near the END of the escaped, joined string
+COLLIDERS2 += [[("a,", "b,"), ("a,", "b"), ("a,", "b\\")], [(",,", ",a"), (",,", ",b"), (",,", ",,")], [("x\\", "y\\"), ("x\\", "y,"), ("x\\", "yz")],
+               [("ab", "c,"), ("ab", "c\\"), ("ab", "cd")]]
 COLLIDERS3 = [[("x", "", ","), ("x", ",", "")], [("a,b", "c", "d"), ("a", "b,c", "d")], [("a", "b,c", "d"), ("a", "b", "c,d")],
-              [("a\\", ",", "b"), ("a", "\\,", "b")]]
+              [("a\\", ",", "b"), ("a", "\\,", "b")], [("a,", "b,", "c,"), ("a,", "b,", "c"), ("a,", "b,", "c\\")], [("1", "2", "3.0"), ("1", "2", "3")]]
 
 
 def cases(tier, seed):
@@ -42,8 +45,12 @@ def cases(tier, seed):
 def gen_table(rng, ncols, ntuples_max=5):
     tuples = []
     pool = COLLIDERS2 if ncols == 2 else COLLIDERS3
-    if rng.random() < 0.75:
+    if rng.random() < 0.8:
         tuples += [tuple(t) for t in pool[int(rng.integers(0, len(pool)))]]
+        if rng.random() < 0.3:
+            for t in pool[int(rng.integers(0, len(pool)))]:
+                if tuple(t) not in tuples:
+                    tuples.append(tuple(t))
     k = int(rng.integers(2, ntuples_max + 1))
     while len(tuples) < k:
         t = tuple(ALPHABET[int(rng.integers(0, len(ALPHABET)))] for _ in range(ncols))
